@@ -264,6 +264,8 @@ def rule_r3(chk, m):
         chk.ob("C11-R3", f"dates.{q}", ok, "target.from_ymd(*source.to_ymd(position))", m.loc(f))
     try:
         tables = month_tables(m)
+        from .c09 import to_ymd_by_evaluation
+        to_ymd_by_evaluation(chk, "C11-R3", m, tables)
         seg = {c: {mo: month_to_segment(m, c, mo) for mo in range(1, 13)} for c in REGULAR}
     except fin.NotFinite as e:
         raise AnalysisError(f"cannot evaluate calendar tables: {e}")
